@@ -16,6 +16,7 @@ import (
 	"reflect"
 	"strconv"
 	"strings"
+	"sync"
 
 	"com.tuntun.rangers/node/src/storage/rlp"
 	"verif/harness/hx"
@@ -122,7 +123,39 @@ var (
 
 // goType builds the Go type for a type expression (cached: reflect.StructOf types with the
 // same shape are identical anyway, the cache only saves time).
+var goTypesMu sync.Mutex
+
 func goType(t *Ty) reflect.Type {
+	goTypesMu.Lock()
+	defer goTypesMu.Unlock()
+	return goTypeL(t)
+}
+
+// goTypeSalted builds the type afresh with struct field names carrying `salt`: a type rlp's
+// type cache has never seen, with exactly the same encoding as the unsalted one.
+func goTypeSalted(t *Ty, salt string) reflect.Type {
+	switch t.K {
+	case "S":
+		return reflect.SliceOf(goTypeSalted(t.E, salt))
+	case "A":
+		return reflect.ArrayOf(t.N, goTypeSalted(t.E, salt))
+	case "P":
+		return reflect.PtrTo(goTypeSalted(t.E, salt))
+	case "R":
+		var fs []reflect.StructField
+		for i, f := range t.Fs {
+			sf := reflect.StructField{Name: "F" + salt + "x" + strconv.Itoa(i), Type: goTypeSalted(f.T, salt)}
+			if f.Tag != "" {
+				sf.Tag = reflect.StructTag(`rlp:"` + f.Tag + `"`)
+			}
+			fs = append(fs, sf)
+		}
+		return reflect.StructOf(fs)
+	}
+	return goType(t)
+}
+
+func goTypeL(t *Ty) reflect.Type {
 	key := t.String()
 	if rt, ok := goTypes[key]; ok {
 		return rt
@@ -152,15 +185,15 @@ func goType(t *Ty) reflect.Type {
 	case "a":
 		rt = reflect.ArrayOf(t.N, reflect.TypeOf(uint8(0)))
 	case "S":
-		rt = reflect.SliceOf(goType(t.E))
+		rt = reflect.SliceOf(goTypeL(t.E))
 	case "A":
-		rt = reflect.ArrayOf(t.N, goType(t.E))
+		rt = reflect.ArrayOf(t.N, goTypeL(t.E))
 	case "P":
-		rt = reflect.PtrTo(goType(t.E))
+		rt = reflect.PtrTo(goTypeL(t.E))
 	case "R":
 		var fs []reflect.StructField
 		for i, f := range t.Fs {
-			sf := reflect.StructField{Name: "F" + strconv.Itoa(i), Type: goType(f.T)}
+			sf := reflect.StructField{Name: "F" + strconv.Itoa(i), Type: goTypeL(f.T)}
 			if f.Tag != "" {
 				sf.Tag = reflect.StructTag(`rlp:"` + f.Tag + `"`)
 			}
